@@ -281,49 +281,6 @@ theorem iflet_useless_iff (sig : Sig) (cx : Cx) (hcx : CxOk sig cx) (hinh : Inha
       have := hun p (by simp)
       rw [hall v hv] at this; cases this
 
-theorem firstO_none {α β : Type} (f : α → Option (Option β)) : ∀ (l : List α),
-    firstO f l = some none → ∀ x ∈ l, f x = some none
-  | [], _, x, hx => by simp at hx
-  | y :: l, h, x, hx => by
-    simp only [firstO] at h
-    cases hy : f y with
-    | none => simp [hy] at h
-    | some r =>
-      cases r with
-      | some d => simp [hy] at h
-      | none =>
-        simp only [hy] at h
-        simp only [List.mem_cons] at hx
-        rcases hx with hx | hx
-        · rw [hx]; exact hy
-        · exact firstO_none f l h x hx
-
-theorem mem_insertByKey (kv x : Option Ctor × Nat) : ∀ (l : List (Option Ctor × Nat)),
-    x ∈ insertByKey kv l ↔ x = kv ∨ x ∈ l
-  | [] => by simp [insertByKey]
-  | y :: l => by
-    simp only [insertByKey]
-    split
-    · simp
-    · simp only [List.mem_cons, mem_insertByKey kv x l]
-      constructor
-      · rintro (h | h | h)
-        · exact Or.inr (Or.inl h)
-        · exact Or.inl h
-        · exact Or.inr (Or.inr h)
-      · rintro (h | h | h)
-        · exact Or.inr (Or.inl h)
-        · exact Or.inl h
-        · exact Or.inr (Or.inr h)
-
-theorem mem_sortByKey (x : Option Ctor × Nat) : ∀ (l : List (Option Ctor × Nat)), x ∈ sortByKey l ↔ x ∈ l
-  | [] => by simp [sortByKey]
-  | y :: l => by
-    have := mem_sortByKey x l
-    simp only [sortByKey, List.foldr_cons] at this ⊢
-    rw [mem_insertByKey, this]
-    simp
-
 /-- **Match / let accepted ⇒ exhaustive** (`incomplete_counterexample_internal` returning `None`,
 main_checker.rs:995-999, 1540-1544): if the counterexample search finds nothing, every well-typed
 value vector is matched by some row.  No inhabitedness hypothesis is needed for this direction. -/
@@ -420,6 +377,181 @@ theorem accepted_exhaustive (sig : Sig) (cx : Cx) (hcx : CxOk sig cx) :
                 rw [hm'] at this; cases this
               · simp at hx
 
+/-- **Counterexample soundness** (`incomplete_counterexample_internal` returning `Some(d)`): the
+reported vector `d` is a well-typed pattern vector without `nothing()`, and *every* well-typed value
+vector it denotes is matched by no row. -/
+theorem cex_some_sound (sig : Sig) (cx : Cx) (hcx : CxOk sig cx) (hnd : SigNodup sig) :
+    ∀ (fuel : Nat) (P : Matrix) (n : Nat) (ts : List Nat) (d : Row),
+      matrixTy sig P ts = true → ts.length = n → cexF cx fuel P n = some (some d) →
+      patTys sig d ts = true ∧ okPats d = true ∧
+        ∀ vs, hasTys sig vs ts = true → pmatchAll d vs = true → ∀ r ∈ P, pmatchAll r vs = false := by
+  intro fuel
+  induction fuel with
+  | zero => intro P n ts d _ _ h; simp [cexF] at h
+  | succ k ih =>
+    intro P n ts d hP hn h
+    simp only [cexF] at h
+    split at h
+    · -- n = 0
+      rename_i hz
+      subst hz
+      have hts : ts = [] := List.length_eq_zero_iff.mp hn
+      subst hts
+      split at h
+      · rename_i hemp
+        simp only [Option.some.injEq] at h
+        subst h
+        have : P = [] := by simpa using hemp
+        subst this
+        exact ⟨by simp [patTys], by simp [okPats], by simp⟩
+      · simp at h
+    · rename_i hnz
+      cases ts with
+      | nil => simp at hn; exact absurd hn.symm hnz
+      | cons t ts =>
+        have hty : ∀ c m, (c, m) ∈ rootCtors P → ∃ tys, ctorFields sig t c = some tys ∧ tys.length = m :=
+          fun c m hm => rawRoots_ty sig t ts P hP c m (rootCtors_sub P _ hm)
+        have hkey : ∀ c m, (c, m) ∈ rawRoots P → ∃ m', (c, m') ∈ rootCtors P :=
+          fun c m hm => rootCtors_key P (c, m) hm
+        split at h
+        · -- incomplete signature
+          rename_i inc hsig
+          split at h
+          · simp at h
+          · simp at h
+          · rename_i v' hrec
+            simp only [Option.some.injEq] at h
+            have hlen : ts.length = n - 1 := by simp at hn; omega
+            obtain ⟨hv'ty, hv'ok, hv'un⟩ := ih _ _ ts v' (default_matrix_ty sig t ts P hP) hlen hrec
+            rcases sigIncomplete_some_cases cx _ inc hsig with ⟨hroots, hinc⟩ | ⟨c0, rn, rest, hroots, hincne, hincs⟩
+            · -- no root constructors at all: head is `_`
+              subst hinc
+              simp only [minCtor] at h
+              subst h
+              refine ⟨by simp [patTys, patTy, hv'ty], by simp [okPats, okPat, hv'ok], ?_⟩
+              intro vs hvs hm
+              cases vs with
+              | nil => simp [hasTys] at hvs
+              | cons v vs =>
+                simp only [hasTys, Bool.and_eq_true] at hvs
+                simp only [pmatchAll, pmatch, Bool.true_and] at hm
+                refine default_unmatched_conv P v vs ?_ (hv'un vs hvs.2 hm)
+                cases v with
+                | prim kk => simp [headFree]
+                | con c ws =>
+                  intro m hmem
+                  obtain ⟨m', hm'⟩ := hkey c m hmem
+                  rw [hroots] at hm'; simp at hm'
+            · -- head is the least missing variant applied to wildcards
+              cases hmin : minCtor inc with
+              | none => exact absurd (minCtor_none inc hmin) hincne
+              | some x =>
+                obtain ⟨variant, size⟩ := x
+                simp only [hmin] at h
+                subst h
+                obtain ⟨hcls, hcxm, hfresh⟩ := hincs _ (minCtor_mem inc _ hmin)
+                simp only at hcls hcxm hfresh
+                obtain ⟨tys0, htc0, _⟩ := hty (some c0) rn (by rw [hroots]; simp)
+                obtain ⟨vsd, hsig', _⟩ := ctorFields_some htc0
+                rw [hcx t c0.cls vsd hsig'] at hcxm
+                obtain ⟨vt, hvt, evt⟩ := List.mem_map.mp hcxm
+                obtain ⟨vname, vtys⟩ := vt
+                simp only [Prod.mk.injEq] at evt
+                have hfv : findVariant vsd variant.name = some vtys := by
+                  rw [← evt.1]; exact findVariant_nodup vsd vname vtys (hnd t c0.cls vsd hsig') hvt
+                have hcf : ctorFields sig t (some variant) = some vtys := by
+                  simp [ctorFields, hsig', hcls, hfv]
+                have hsz : size = vtys.length := evt.2.symm
+                refine ⟨?_, by simp [okPats, okPat, okPats_wilds, hv'ok], ?_⟩
+                · simp only [patTys, patTy, hcf, Bool.and_eq_true]
+                  exact ⟨by rw [hsz]; exact patTys_wilds sig vtys, hv'ty⟩
+                · intro vs hvs hm
+                  cases vs with
+                  | nil => simp [hasTys] at hvs
+                  | cons v vs =>
+                    simp only [hasTys, Bool.and_eq_true] at hvs
+                    simp only [pmatchAll, Bool.and_eq_true] at hm
+                    refine default_unmatched_conv P v vs ?_ (hv'un vs hvs.2 hm.2)
+                    cases v with
+                    | prim kk => simp [headFree]
+                    | con c ws =>
+                      have hc : some variant = c := by
+                        have := hm.1
+                        simp only [pmatch, Bool.and_eq_true, decide_eq_true_eq] at this
+                        exact this.1
+                      subst hc
+                      intro m hmem
+                      obtain ⟨m', hm'⟩ := hkey _ m hmem
+                      exact hfresh variant m' hm' rfl
+        · -- complete signature: first root constructor with a gap
+          rename_i hsig
+          obtain ⟨⟨c, a⟩, hmem, hfx⟩ := firstO_some _ _ d h
+          have hmem' : (c, a) ∈ rootCtors P := (mem_sortByKey _ _).mp hmem
+          obtain ⟨tys, hc, hlen⟩ := hty c a hmem'
+          subst hlen
+          simp only at hfx
+          split at hfx
+          · simp at hfx
+          · simp at hfx
+          · rename_i v' hrec
+            simp only [Option.some.injEq] at hfx
+            subst hfx
+            have hl2 : (tys ++ ts).length = tys.length + n - 1 := by simp at hn ⊢; omega
+            obtain ⟨hv'ty, hv'ok, hv'un⟩ := ih _ _ (tys ++ ts) v' (spec_matrix_ty sig t ts P hP c tys hc) hl2 hrec
+            obtain ⟨hty1, hty2⟩ := patTys_take_drop sig tys ts v' hv'ty
+            obtain ⟨hok1, hok2⟩ := okPats_take_drop tys.length v' hv'ok
+            refine ⟨by simp [patTys, patTy, hc, hty1, hty2], by simp [okPats, okPat, hok1, hok2], ?_⟩
+            intro vs hvs hm
+            cases vs with
+            | nil => simp [hasTys] at hvs
+            | cons v vs =>
+              simp only [hasTys, Bool.and_eq_true] at hvs
+              simp only [pmatchAll, Bool.and_eq_true] at hm
+              cases v with
+              | prim kk => simp [pmatch] at hm
+              | con c' ws =>
+                obtain ⟨hm1, hm2⟩ := hm
+                simp only [pmatch, Bool.and_eq_true, decide_eq_true_eq] at hm1
+                obtain ⟨e, hm1⟩ := hm1
+                subst e
+                have hws : hasTys sig ws tys = true := by
+                  have := hvs.1
+                  simp only [hasTy, hc] at this
+                  exact this
+                have hmv : pmatchAll v' (ws ++ vs) = true := by
+                  rw [← List.take_append_drop tys.length v',
+                    pmatchAll_append _ _ _ _ (pmatchAll_length _ _ hm1), hm1, hm2]; rfl
+                exact (spec_matrix sig t ts P hP c tys ws vs hc hws).mp (hv'un _ (hasTys_append sig _ _ _ _ hws hvs.2) hmv)
+
+
+/-- **Exhaustiveness verdict is exact** (both directions): whenever the counterexample search returns,
+it returns `None` exactly when every well-typed value vector is matched by some row. -/
+theorem exhaustive_iff (sig : Sig) (cx : Cx) (hcx : CxOk sig cx) (hnd : SigNodup sig) (hinh : Inhabited' sig)
+    (fuel : Nat) (P : Matrix) (n : Nat) (ts : List Nat) (res : Option Row)
+    (hP : matrixTy sig P ts = true) (hn : ts.length = n) (h : cexF cx fuel P n = some res) :
+    (res = none ↔ ∀ vs, hasTys sig vs ts = true → ∃ r ∈ P, pmatchAll r vs = true) := by
+  constructor
+  · intro hr; subst hr
+    exact accepted_exhaustive sig cx hcx fuel P n ts hP hn h
+  · intro hall
+    cases res with
+    | none => rfl
+    | some d =>
+      obtain ⟨hty, hok, hun⟩ := cex_some_sound sig cx hcx hnd fuel P n ts d hP hn h
+      obtain ⟨vs, hvs, hm⟩ := exists_matches sig hinh d ts hty hok
+      obtain ⟨r, hr, hmr⟩ := hall vs hvs
+      rw [hun vs hvs hm r hr] at hmr; cases hmr
+
+/-- **Rejected ⇒ the reported counterexample denotes a value that no row matches** (existence needs
+inhabited types). -/
+theorem counterexample_denotes_unmatched (sig : Sig) (cx : Cx) (hcx : CxOk sig cx) (hnd : SigNodup sig)
+    (hinh : Inhabited' sig) (fuel : Nat) (P : Matrix) (n : Nat) (ts : List Nat) (d : Row)
+    (hP : matrixTy sig P ts = true) (hn : ts.length = n) (h : cexF cx fuel P n = some (some d)) :
+    ∃ vs, hasTys sig vs ts = true ∧ pmatchAll d vs = true ∧ ∀ r ∈ P, pmatchAll r vs = false := by
+  obtain ⟨hty, hok, hun⟩ := cex_some_sound sig cx hcx hnd fuel P n ts d hP hn h
+  obtain ⟨vs, hvs, hm⟩ := exists_matches sig hinh d ts hty hok
+  exact ⟨vs, hvs, hm, hun vs hvs hm⟩
+
 /-- `incomplete_counterexample` on the one-column matrix of a `match` / `let`: no diagnostic ⇒ every
 value of the scrutinee type is matched by some arm. -/
 theorem match_accepted_exhaustive (sig : Sig) (cx : Cx) (hcx : CxOk sig cx) (fuel : Nat)
@@ -437,6 +569,58 @@ theorem match_accepted_exhaustive (sig : Sig) (cx : Cx) (hcx : CxOk sig cx) (fue
   obtain ⟨r, hr, hm⟩ := accepted_exhaustive sig cx hcx fuel _ 1 [t] hP rfl hc [v] (by simp [hasTys, hv])
   obtain ⟨a, hmem, rfl⟩ := List.mem_map.mp hr
   exact ⟨a, hmem, by simpa [pmatchAll] using hm⟩
+
+/-- `incomplete_counterexample` of a `match` / destructuring `let` (main_checker.rs:995-999,
+1540-1544): the diagnostic is absent exactly when every value of the scrutinee type is matched by
+some arm; when it is present, its payload `d` is a well-typed pattern, denotes some value, and no
+value it denotes is matched by any arm. -/
+theorem match_exhaustive_iff (sig : Sig) (cx : Cx) (hcx : CxOk sig cx) (hnd : SigNodup sig)
+    (hinh : Inhabited' sig) (fuel : Nat) (arms : List Pat) (t : Nat) (res : Option Pat)
+    (ha : ∀ a ∈ arms, patTy sig a t = true) (h : incompleteCounterexampleF cx fuel arms = some res) :
+    (res = none ↔ ∀ v, hasTy sig v t = true → ∃ a ∈ arms, pmatch a v = true) ∧
+    (∀ d, res = some d → patTy sig d t = true ∧ (∃ v, hasTy sig v t = true ∧ pmatch d v = true) ∧
+      ∀ v, hasTy sig v t = true → pmatch d v = true → ∀ a ∈ arms, pmatch a v = false) := by
+  have hP : matrixTy sig (arms.map fun e => [e]) [t] = true := by
+    simp only [matrixTy, List.all_eq_true, List.mem_map]
+    rintro r ⟨e, hmem, rfl⟩
+    simp [patTys, ha e hmem]
+  unfold incompleteCounterexampleF at h
+  cases hc : cexF cx fuel (arms.map fun e => [e]) 1 with
+  | none => simp [hc] at h
+  | some r =>
+    cases r with
+    | none =>
+      simp only [hc, Option.some.injEq] at h
+      subst h
+      refine ⟨⟨fun _ => ?_, fun _ => rfl⟩, by simp⟩
+      intro v hv
+      obtain ⟨r, hr, hm⟩ := accepted_exhaustive sig cx hcx fuel _ 1 [t] hP rfl hc [v] (by simp [hasTys, hv])
+      obtain ⟨a, hmem, rfl⟩ := List.mem_map.mp hr
+      exact ⟨a, hmem, by simpa [pmatchAll] using hm⟩
+    | some row =>
+      obtain ⟨hty, hok, hun⟩ := cex_some_sound sig cx hcx hnd fuel _ 1 [t] row hP rfl hc
+      cases row with
+      | nil => simp [patTys] at hty
+      | cons d rest =>
+        cases rest with
+        | cons x y => simp [patTys] at hty
+        | nil =>
+          simp only [hc, Option.some.injEq] at h
+          subst h
+          simp only [patTys, Bool.and_true] at hty
+          simp only [okPats, Bool.and_true] at hok
+          have hunm : ∀ v, hasTy sig v t = true → pmatch d v = true → ∀ a ∈ arms, pmatch a v = false := by
+            intro v hv hm a hmem
+            have := hun [v] (by simp [hasTys, hv]) (by simp [pmatchAll, hm]) [a] (List.mem_map.mpr ⟨a, hmem, rfl⟩)
+            simpa [pmatchAll] using this
+          obtain ⟨v, hv, hm⟩ := exists_match sig hinh d t hty hok
+          refine ⟨⟨fun h => by cases h, fun hall => ?_⟩, ?_⟩
+          · obtain ⟨a, hmem, hma⟩ := hall v hv
+            rw [hunm v hv hm a hmem] at hma; cases hma
+          · intro d' hd'
+            simp only [Option.some.injEq] at hd'
+            subst hd'
+            exact ⟨hty, ⟨v, hv, hm⟩, hunm⟩
 
 /-
 Full-strength statement without the side condition `okPats q` (no `nothing()` = `Or([])` inside the
